@@ -44,7 +44,7 @@ class C13(Prop):
           "alive; is_alive() is true exactly when two are alive after a start() and false after a "
           "stop(); after stop() none is alive and every started active object's thread has ended by "
           "the next settle after it was woken; each publication made while the fabric runs (and "
-          "not separated from its subscription by a clear()) is delivered exactly once per kind - "
+          "not separated from its subscription by a clear()) is delivered exactly once per kind, in publication order - "
           "never twice, which a second pair of delivery threads would cause... and after the final "
           "stop(); start() the fresh subscription receives the fresh publication exactly once. "
           "Non-trivial: the history calls start() while the fabric is already running, or races stop() with start(); distinct = "
@@ -54,6 +54,28 @@ class C13(Prop):
 
   def strategy(self, tier):
     return lifecycle()
+
+  def extra(self, tier, seed, shard, nshards, stats):
+    """A regular family for stop() arriving while a delivery thread is in the middle of a delivery
+    and more publications are waiting: the body publishes seven events; periodic schedules let a
+    delivery thread run q lines for every three stretches of the body, q = 1..40, with body
+    stretches of 5..60 lines; then stop, start, settle (everything still arrives, in order)."""
+    idx = 0
+    ops = [["start"], ["subscribe", "VA"]] + [["publish", "VA"]] * 7 + [["stop"], ["start"], ["settle"],
+                                                                        ["publish", "VA"], ["settle"]]
+    for b in (5, 9, 14, 22, 35, 60):
+      for q in range(1, 41, 2):
+        for who in (1, 2):
+          idx += 1
+          if idx % nshards != shard:
+            continue
+          case = {"ops": ops, "schedule": [[0 if i % 4 else who, b if i % 4 else q] for i in range(160)]}
+          try:
+            self.check(case, stats)
+          except PropertyViolation as v:
+            yield case, v
+            return
+    stats.classes["periodic_schedule_family"] = idx
 
   def check(self, case, stats):
     ao = detsched.install()
@@ -98,6 +120,14 @@ class C13(Prop):
         if running != af.is_alive():
           raise PropertyViolation("%s: is_alive() says %s, %d delivery threads are alive, fabric %s" % (
             where, af.is_alive(), len(live), "started" if running else "stopped"), "C13:is_alive")
+        # every publication here has the same priority and is made by this one thread, one after
+        # the other: whatever was stopped and started in between, a subscriber sees them in order
+        for sig_, r_ in recorders.items():
+          for kind in ("fifo", "lifo"):
+            seen_ids = [i for i, _ in r_[kind].items]
+            if seen_ids != sorted(seen_ids):
+              raise PropertyViolation("%s: the %s subscriber of %s received publications in the order %s" % (
+                where, kind, sig_, seen_ids), "C13:order")
         for (pid, sig, was_running, ep, sub) in pending:
           r = recorders.get(sig)
           if r is None:
